@@ -353,3 +353,30 @@ func (x *Ctx) accessor(rule, recv, method, field, wrap string) {
 	}
 	x.C.Obl(rule, "accessor:"+recv+method, x.pos(f), "getter returns exactly "+want, ok, fmt.Sprintf("%d path(s); returns %s", len(ps), got))
 }
+
+// constantInt converts a constant to int64.
+func constantInt(v constant.Value) (int64, bool) {
+	return constant.Int64Val(constant.ToInt(v))
+}
+
+// fieldTypeString returns the type of a struct field (module prefix stripped).
+func fieldTypeString(x *Ctx, pkgRel, typ, field string) string {
+	sp := x.P.SSA[load.Module+"/"+pkgRel]
+	if sp == nil {
+		return ""
+	}
+	tn, ok := sp.Pkg.Scope().Lookup(typ).(*types.TypeName)
+	if !ok {
+		return ""
+	}
+	st, ok := tn.Type().Underlying().(*types.Struct)
+	if !ok {
+		return ""
+	}
+	for i := 0; i < st.NumFields(); i++ {
+		if st.Field(i).Name() == field {
+			return paths.Short(st.Field(i).Type().String())
+		}
+	}
+	return ""
+}
